@@ -125,6 +125,12 @@ pub fn is_authorized_batched(
         // check that all requested entities were loaded and return error otherwise
 
         for (id, e_option) in loaded_entities {
+            // Loaders are allowed to return more than was requested, which includes
+            // entities they already returned in an earlier iteration. Those are
+            // already in the store, so skip them instead of failing on a duplicate.
+            if entities.contains_entity(&id) {
+                continue;
+            }
             match e_option {
                 Some(e) => {
                     entities.add_entities(
